@@ -96,37 +96,32 @@ theorem first_idle_tick (sr : Msg → Bool) (h δ : Int) (c : Conn) (hu : Up h c
 structure Armed (h id : Int) (c : Conn) : Prop extends Up h c where
   tid : c.testReqId = some id
 
-theorem expiry_tick (sr : Msg → Bool) (h δ id : Int) (hh : 1 ≤ h) (h0 : id ≠ 0) (c : Conn)
-    (ha : Armed h id c) (p : Int) (envs : List Env) (hsp : Spaced δ p envs)
-    (hp : p ≤ id * 1000 + h * 2 * 1000)
-    (hex : ∃ e ∈ envs, id * 1000 + h * 2 * 1000 < e.now) :
-    ∃ pre e post c', envs = pre ++ e :: post ∧ run sr c (ticks pre) = (c', []) ∧ Armed h id c' ∧
-      tick e c' = (dropped c', dropEff) ∧
-      id * 1000 + h * 2 * 1000 < e.now ∧ e.now ≤ id * 1000 + h * 2 * 1000 + δ := by
-  induction envs generalizing p c with
+/-- After fix e3d9663 silent ticks no longer touch `lastTime` while an id is outstanding, and the connection
+is dropped by the first tick more than `2·h·1000` ms after `lastTime` (= the later of the last inbound frame
+and the moment the TestRequest went out). -/
+theorem expiry_tick (sr : Msg → Bool) (h δ id : Int) (h0 : id ≠ 0) (c : Conn)
+    (ha : Armed h id c) (hL : c.lastTime ≠ 0) (p : Int) (envs : List Env) (hsp : Spaced δ p envs)
+    (hex : ∃ e ∈ envs, c.lastTime + h * 2 * 1000 < e.now) :
+    ∃ pre e post, envs = pre ++ e :: post ∧ run sr c (ticks pre) = (c, []) ∧
+      tick e c = (dropped c, dropEff) ∧
+      c.lastTime + h * 2 * 1000 < e.now ∧ (e.now ≤ p + δ ∨ e.now ≤ c.lastTime + h * 2 * 1000 + δ) := by
+  induction envs generalizing p with
   | nil => obtain ⟨e, he, _⟩ := hex; cases he
   | cons e r ih =>
     obtain ⟨h1, h2, h3⟩ := hsp
-    have ht := tick_outstanding e c id ha.sock ha.active ha.tid h0 (by rw [ha.hb]; exact hh)
+    have ht := tick_outstanding e c id ha.sock ha.active ha.tid h0
     have hb := ha.hb
-    by_cases hx : c.hb * 2 * 1000 < e.now - id * 1000
-    · rw [if_pos hx] at ht
-      exact ⟨[], e, r, c, rfl, rfl, ha, ht, (by omega), (by omega)⟩
-    · rw [if_neg hx] at ht
-      have hex' : ∃ e' ∈ r, id * 1000 + h * 2 * 1000 < e'.now := by
-        obtain ⟨e', he', hb⟩ := hex
+    by_cases hx : c.hb * 2 * 1000 < e.now - c.lastTime
+    · rw [if_pos ⟨hx, Or.inl hL⟩] at ht
+      exact ⟨[], e, r, rfl, rfl, ht, (by omega), Or.inl h2⟩
+    · rw [if_neg (fun hc => hx hc.1)] at ht
+      have hex' : ∃ e' ∈ r, c.lastTime + h * 2 * 1000 < e'.now := by
+        obtain ⟨e', he', hb'⟩ := hex
         rcases List.mem_cons.mp he' with rfl | hm
         · exact absurd (by omega) hx
-        · exact ⟨e', hm, hb⟩
-      -- the connection after this (silent) tick
-      obtain ⟨c1, hc1, ha1⟩ : ∃ c1, tick e c = (c1, []) ∧ Armed h id c1 := by
-        by_cases hi : (c.hb - 1) * 1000 < e.now - c.lastTime
-        · rw [if_pos hi] at ht
-          exact ⟨_, ht, ⟨⟨ha.active, ha.sock, ha.hb⟩, ha.tid⟩⟩
-        · rw [if_neg hi] at ht
-          exact ⟨_, ht, ha⟩
-      obtain ⟨pre, e1, post, c', hsplit, hrun, ha', htick, hb1, hb2⟩ := ih c1 ha1 e.now h3 (by omega) hex'
-      exact ⟨e :: pre, e1, post, c', (by rw [hsplit]; rfl), run_ticks_cons_silent sr hc1 hrun, ha', htick,
-        hb1, hb2⟩
+        · exact ⟨e', hm, hb'⟩
+      obtain ⟨pre, e1, post, hsplit, hrun, htick, hb1, hb2⟩ := ih e.now h3 hex'
+      exact ⟨e :: pre, e1, post, (by rw [hsplit]; rfl), run_ticks_cons_silent sr ht hrun, htick, hb1,
+        Or.inr (by omega)⟩
 
 end AsyncFix.Session.Watchdog
